@@ -30,6 +30,7 @@ class Mixture(BigSMILESbase):
                 f"Mixture descriptions start with '.', but it is missing in {self._raw_text}"
             )
         self._absolute_mass = None
+        self._absolute_mass_written = False
         self._relative_mass = None
         self._system_mass = None
         if "%" in self._raw_text:
@@ -49,6 +50,7 @@ class Mixture(BigSMILESbase):
                 if abs_mass < 0:
                     raise RuntimeError(f"Mixture absolute mass invalid {self._raw_text}.")
                 self._absolute_mass = abs_mass
+                self._absolute_mass_written = True
 
     @property
     def absolute_mass(self):
@@ -75,6 +77,11 @@ class Mixture(BigSMILESbase):
         if mass < 0:
             raise RuntimeError(f"Invalid negative total system mass {mass}.")
         self._system_mass = mass
+        # A mass written as absolute mass stays as written, its percentage follows from the system mass.
+        if self._absolute_mass is not None and self._absolute_mass_written and mass > 0:
+            self._relative_mass = 100 * self._absolute_mass / mass
+            return
+
         if self._relative_mass is not None:
             self._absolute_mass = self._relative_mass / 100.0 * mass
             return
